@@ -1520,7 +1520,80 @@ fn gen_die(g: &mut G, emit: &mut dyn FnMut(String)) {
     ));
 }
 
+
+/// the quantifier of C08 as a product: every entry kind of the family/format × boundary field
+/// values (0, 1, max-1, max, values whose sum with the base wraps) × address size × version ×
+/// split/non-split, each as a one-entry list after a base-address entry
+fn gen_sweep(ctx: &Ctx, emit: &mut dyn FnMut(String)) {
+    let mut rng = ctx.rng(88);
+    let mut n = 0u64;
+    for k in [Kind::Rng, Kind::Loc] {
+        for s in [1u8, 2, 4, 8] {
+            for version in 2u16..=5 {
+                for dwo in [false, true] {
+                    if k == Kind::Rng && dwo && version != 4 {
+                        // the file type does not reach RangeLists; keep one split case
+                        continue;
+                    }
+                    let (_, coded) = section_format(k, version, dwo);
+                    let m = G::ones(s);
+                    let pool = [0u64, 1, m - 1, m, m / 2 + 1];
+                    // address table: the pool itself
+                    let kinds: &[u8] = if coded { if k == Kind::Loc { &[0, 1, 2, 3, 4, 5, 6] } else { &[0, 1, 2, 3, 4, 5] } } else { &[7] };
+                    for &kind in kinds {
+                        for (i, &x) in pool.iter().enumerate() {
+                            for (j, &y) in pool.iter().enumerate() {
+                                n += 1;
+                                let c = Cfg {
+                                    big: n % 3 == 0,
+                                    enc: Encoding { address_size: s, format: if n % 4 == 0 { Format::Dwarf64 } else { Format::Dwarf32 }, version },
+                                };
+                                let mut addr = Vec::new();
+                                for p in pool {
+                                    put_uint(&mut addr, c.big, s as usize, p);
+                                }
+                                let d = if k == Kind::Loc { vec![0x50 + (n % 16) as u8] } else { vec![] };
+                                let gnu = k == Kind::Loc && version < 5;
+                                let ent = match kind {
+                                    0 => Ent::OP(x, y, d),
+                                    1 => Ent::SE(x, y, d),
+                                    2 => Ent::SL(x, y, d),
+                                    3 => Ent::XX(i as u64, j as u64, d),
+                                    4 => Ent::XL(i as u64, if gnu { y & 0xffff_ffff } else { y }, d),
+                                    5 => Ent::Basex(i as u64),
+                                    6 => Ent::DL(d),
+                                    _ => {
+                                        if (x == 0 && y == 0) || x == m {
+                                            continue;
+                                        }
+                                        Ent::Pair(x, y, d)
+                                    }
+                                };
+                                let base_ent = pool[(i + 2 * j + n as usize) % 5];
+                                let tail = if kind == 5 { if coded { Ent::OP(1, 3, if k == Kind::Loc { vec![0x9c] } else { vec![] }) } else { Ent::Base(0) } } else { Ent::Base(1) };
+                                let ents = if n % 2 == 0 { vec![Ent::Base(base_ent), ent, tail] } else { vec![ent, tail] };
+                                let base = pool[(n % 5) as usize];
+                                let pre = if n % 7 == 0 { rng.bytes(3) } else { vec![] };
+                                emit(format!(
+                                    "lists-spec {} {} {} {} - {} {base} {} 0",
+                                    if k == Kind::Rng { "rng" } else { "loc" },
+                                    c.text(),
+                                    dwo as u8,
+                                    hex(&pre),
+                                    ents_text(&ents),
+                                    hex(&addr)
+                                ));
+                            }
+                        }
+                    }
+                }
+            }
+        }
+    }
+}
+
 pub fn gen(ctx: &Ctx, emit: &mut dyn FnMut(String)) {
+    gen_sweep(ctx, emit);
     let mut rng = ctx.rng(8);
     let n = ctx.n(9000, 400_000);
     for i in 0..n {
